@@ -7,6 +7,7 @@
 pub mod util;
 pub mod c06;
 pub mod c09;
+pub mod c10;
 pub mod c11;
 pub mod c13;
 
@@ -14,6 +15,7 @@ pub fn harnesses() -> Vec<(&'static str, fn())> {
     let mut v: Vec<(&'static str, fn())> = vec![];
     v.extend(c06::LIST.iter().cloned());
     v.extend(c09::LIST.iter().cloned());
+    v.extend(c10::LIST.iter().cloned());
     v.extend(c11::LIST.iter().cloned());
     v.extend(c13::LIST.iter().cloned());
     v
